@@ -26,7 +26,7 @@ class Partial:
 
 ALPHABET = ['app0', 'app1', 'app3', 'applist', 'iter2', 'iter0', 'trunc0', 'trunc1', 'truncm1', 'trunclen',
             'modecycle', 'reopen', 'ctx:app1+app3']
-EXTRA = ['ctx:app3+iter2+app0', 'iterfail_atom', 'iterfail_raise', 'iterfail_first', 'appbadrank', 'appbadatom', 'appother', 'itergen', 'truncmid', 'trunclen1', 'truncstr', 'truncbelow', 'truncfloat', 'md_set', 'md_pop',
+EXTRA = ['ctx:app3+iter2+app0', 'appswapped', 'appswapped', 'iterfail_atom', 'iterfail_raise', 'iterfail_first', 'appbadrank', 'appbadatom', 'appother', 'itergen', 'truncmid', 'trunclen1', 'truncstr', 'truncbelow', 'truncfloat', 'md_set', 'md_pop',
          'copy', 'recreate', 'app1', 'app3', 'iter2']
 PATTERNS = {'two': [2, 1], 'withempty': [2, 0], 'onlyempty': [0], 'seven': [1, 0, 0, 4, 2, 0, 3], 'one': [3],
             'five': [1, 2, 0, 1, 1], 'six': [1, 1, 1, 1, 0, 2]}
@@ -51,6 +51,10 @@ def build(op, model, rng, dtype, atom):
         od = gens.other_dtype(rng, dtype)
         x = gens.relayout(gens.safe_source(rng, od, dtype, (3,) + atom), rng.choice(['F', 'strided', 'C']))
         return model + [np.asarray(x).astype(dtype)], lambda D, ra, p: (ra.append(x), ra)[1]
+    if op == 'appswapped':      # same numeric type as the array, opposite byte order
+        x = item(rng, dtype, atom, 2)
+        sw = x.astype(x.dtype.newbyteorder('S'))
+        return model + [x], lambda D, ra, p: (ra.append(sw), ra)[1]
     if op == 'appbadrank':      # an item one dimension short (a single atom-shaped row, or a scalar)
         x = np.zeros(atom, dtype=dtype).tolist() if atom else 5
         return REJECT, lambda D, ra, p: (ra.append(x), ra)[1]
